@@ -1,15 +1,264 @@
-"""JSON-shaped parts of the marshmallow model (Node/Child schemas): filled in by the persistence layer."""
+"""marshmallow on parsed JSON (NodeSchema / ChildSchema): Schema.load of an arbitrary JSON value and dump of heap objects.
+
+A-MM + A-JSON.  A parsed JSON value is explored by *kind* (null, bool, int, float, str, list, dict); a JSON object is a heap
+dict with arbitrary content; the elements of a nested Dict field are represented by one arbitrary element, which is enough
+for exceptional postconditions (any exception some element raises, an arbitrary element raises).
+"""
+from __future__ import annotations
+
+import z3
+
 from .core import *  # noqa: F403
 from .core import MISSING
+from . import lib as L
+from . import models as M
+from .interp import is_sym
+
+j_of_int = z3.Function("json_of_int", IntS, JsonS)
+j_of_str = z3.Function("json_of_str", StrS, JsonS)
+j_of_bool = z3.Function("json_of_bool", BoolS, JsonS)
+j_null = z3.Const("json_null", JsonS)
+j_of_ref = z3.Function("json_of_obj", Ref, JsonS)
+j_int = z3.Function("json_int", JsonS, IntS)
+j_str = z3.Function("json_str", JsonS, StrS)
+j_bool = z3.Function("json_bool", JsonS, BoolS)
+j_ref = z3.Function("json_obj", JsonS, Ref)
+
+
+def to_json_term(I, v):
+    if v is None:
+        return j_null
+    if isinstance(v, bool):
+        return j_of_bool(z3.BoolVal(v))
+    if isinstance(v, int):
+        return j_of_int(z3.IntVal(v))
+    if isinstance(v, str):
+        return j_of_str(z3.StringVal(v))
+    if isinstance(v, Sym):
+        if v.kind == "json":
+            return v.term
+        if v.kind == "int":
+            return j_of_int(v.term)
+        if v.kind == "str":
+            return j_of_str(v.term)
+        if v.kind == "bool":
+            return j_of_bool(v.term)
+    if isinstance(v, Obj):
+        return j_of_ref(v.ref)
+    if isinstance(v, LibObj) and v.kind in ("json_scalar", "lazy_json"):
+        return v.term
+    raise Unsupported(f"cannot store {v!r} as a JSON value")
+
+
+class LazyJson(LibObj):
+    """A JSON value whose kind has not been looked at yet (no fork until an operation needs the kind)."""
+
+    def __init__(self, term):
+        super().__init__("lazy_json")
+        self.term = term
+        self.forced = MISSING
+
+    def force(self, I):
+        if self.forced is MISSING:
+            self.forced = json_value(I, self.term)
+        return self.forced
+
+    def is_none(self, I):
+        if self.forced is not MISSING:
+            return self.forced is None
+        if I.c.branch(M.j_kind(self.term) == 0, "json-is-null"):
+            self.forced = None
+            return True
+        return False
+
+
+def json_value(I, j):
+    """Shape of an arbitrary JSON value (forks on its kind)."""
+    c = I.c
+    c.assume(z3.And(M.j_kind(j) >= 0, M.j_kind(j) <= 6))
+    i = c.choose([M.j_kind(j) == x for x in range(6)], "json-kind")
+    kind = M.KINDS[i]
+    if kind == "null":
+        return None
+    if kind == "bool":
+        return Sym(j_bool(j), "bool")
+    if kind == "int":
+        return Sym(j_int(j), "int")
+    if kind == "str":
+        return Sym(j_str(j), "str")
+    if kind == "dict":
+        d = Obj(j_ref(j), TDict(TStr, TJson))
+        c.assume(z3.Select(I.alive(), d.ref))
+        return d
+    return json_scalar(I, kind, j)
+
+
+def json_scalar(I, kind, j):
+    o = LibObj("json_scalar", jkind=kind, term=j)
+
+    def attr(I2, name, fr, node):
+        if kind == "list" and name == "pop":
+            def pop(I3, a, k):
+                if a and not isinstance(a[0], int) and not is_sym(a[0], "int"):
+                    I3.raise_("TypeError")
+                raise Unsupported("list.pop on a parsed JSON list")
+            return Builtin("list.pop", pop)
+        raise RaiseSig(I2.make_exc("AttributeError", site=node))  # float / list have no such attribute
+
+    def contains(I2, x):
+        if kind == "float":
+            I2.raise_("TypeError")  # argument of type 'float' is not iterable
+        return I2.c.fresh("in_list", BoolS)  # list membership: either answer
+
+    def setitem(I2, k, v):
+        I2.raise_("TypeError")
+
+    def getitem(I2, k, node):
+        I2.raise_("TypeError")
+    o.attr, o.contains, o.setitem, o.getitem = attr, contains, setitem, getitem
+    return o
+
+
+# --- operations of the hooks on scalars that are plain Python values after json_value() ------------------------------
+# None / bool / int: `"x" in data` -> TypeError (handled in lib.contains below); str: substring test, no .pop -> AttributeError
 
 
 def deserialize_json_field(lib, I, fdecl, schema_obj, value, node):
-    raise Unsupported(f"deserialisation of field type {fdecl.ftype}")
+    """value: shape produced by json_value (None, Sym bool/int/str, heap dict, json_scalar)."""
+    ft = fdecl.ftype
+    c = I.c
+    if ft == "Bool":
+        if is_sym(value, "bool") or isinstance(value, bool):
+            return value
+        # ints 0/1 and the truthy/falsy strings are accepted, everything else is invalid
+        if (is_sym(value, "int") or is_sym(value, "str")) and c.branch(c.fresh("bool_literal", BoolS), "bool-field-literal"):
+            return Sym(c.fresh("boolval", BoolS), "bool")
+        I.raise_("ValidationError")
+    if ft == "Dict":
+        if not (isinstance(value, Obj) and value.typ.kind == "dict"):
+            I.raise_("ValidationError")
+        kf, vf = fdecl.inner
+        nested = vf is not None and vf.ftype == "Nested"
+        vtype = TObj("Child") if nested else TStr
+        out = I.alloc(TDict(TInt, vtype))
+        # the accepted content: an arbitrary int-keyed dict of the right value type
+        I.d_set_dom(out, c.fresh("rest_dom", arr(IntS, BoolS)))
+        I.d_set_map(out, c.fresh("rest_map", arr(IntS, sort_of(vtype))))
+        if not nested:
+            # keys and values are deserialised by marshmallow's own scalar fields: acceptable or a collected ValidationError, nothing else
+            if c.branch(c.fresh("dict_field_invalid", BoolS), "dict-of-scalars-invalid"):
+                I.raise_("ValidationError")
+            return out
+        if not c.branch(I.d_nonempty(value), "json-dict-nonempty"):
+            I.d_set_dom(out, z3.K(IntS, z3.BoolVal(False)))
+            return out
+        # Nested(ChildSchema): the nested schema's hooks are repository code: one arbitrary element stands for all of them
+        k = c.fresh("jkey", StrS)
+        c.assume(z3.Select(I.d_dom(value), k))
+        invalid = c.fresh("some_key_invalid", BoolS)
+        elem = LazyJson(z3.Select(I.d_map(value), k))
+        hard = False
+        try:
+            nschema = I.alloc(TObj(vf.inner.name))
+            val = I.call(I.get_attr(nschema, "load", None), [elem], {}, None, node)
+            kk = c.fresh("ckey", IntS)
+            I.d_setitem(out, Sym(kk, "int"), val)
+        except RaiseSig as r:
+            if r.exc.cls.name != "ValidationError":
+                raise
+            hard = True
+        if hard or c.branch(invalid, "nested-dict-keys-invalid"):
+            I.raise_("ValidationError")
+        return out
+    raise Unsupported(f"deserialisation of field type {ft}")
+
+
+def deserialize_scalar(lib, I, fdecl, value):
+    ft = fdecl.ftype
+    if value is None:
+        I.raise_("ValidationError")
+    if ft in ("Int", "Integer"):
+        if is_sym(value, "bool") or isinstance(value, bool):
+            I.raise_("ValidationError")
+        if is_sym(value, "int") or isinstance(value, int):
+            return value
+        if is_sym(value, "str") or isinstance(value, str):
+            try:
+                return lib.b_int(I, [value], {})
+            except RaiseSig as r:
+                if r.exc.cls.name == "ValueError":
+                    I.raise_("ValidationError")
+                raise
+        if isinstance(value, LibObj) and value.kind == "json_scalar" and value.jkind == "float":
+            return Sym(I.c.fresh("truncated", IntS), "int")
+        I.raise_("ValidationError")
+    if ft in ("Str", "String"):
+        if is_sym(value, "str") or isinstance(value, str):
+            return value
+        I.raise_("ValidationError")
+    raise Unsupported(f"scalar field {ft}")
+
+
+SCALAR_T = {"Int": TInt, "Integer": TInt, "Str": TStr, "String": TStr, "Bool": TBool}
 
 
 def schema_load_json(lib, I, schema_obj, cls, data, node):
-    raise Unsupported("Schema.load of a non-dict value")
+    """Schema.load(data) where data (after pre_load) is a parsed JSON value that is not a Python dict literal.
+
+    Scalar fields are not forked on: a scalar field is either acceptable - then its value is an arbitrary value of the
+    field's type that satisfies the declared validators - or it contributes to the collected ValidationError.  No scalar
+    field can raise anything else (A-MM).  Dict fields are explored, because the nested schema's hooks are repository code.
+    """
+    from .mmalgo import schema_hooks
+    from .mm import schema_fields
+    if isinstance(data, LazyJson):
+        data = data.force(I)
+    if not (isinstance(data, Obj) and data.typ.kind == "dict"):
+        I.raise_("ValidationError", site=node)  # "Invalid input type."
+    c = I.c
+    fields = schema_fields(cls)
+    result = {}
+    invalid = c.fresh("some_scalar_field_invalid", BoolS)
+    hard_invalid = False
+    for name, fdecl in fields:
+        if fdecl.ftype in SCALAR_T:
+            t = SCALAR_T[fdecl.ftype]
+            v = c.fresh(f"fld_{name}", sort_of(t))
+            val = I.wrap(v, t)
+            for vd in fdecl.validators:  # an accepted value satisfies the validators
+                if isinstance(vd, LibObj) and vd.kind == "mm_range":
+                    if vd.min is not None:
+                        c.assume(z3.Or(invalid, v >= vd.min))
+                    if vd.max is not None:
+                        c.assume(z3.Or(invalid, v <= vd.max))
+                elif isinstance(vd, LibObj) and vd.kind == "mm_oneof":
+                    c.assume(z3.Or(invalid, z3.Or(*[v == I.to_term(x, t) for x in vd.choices])))
+            result[name] = val
+            continue
+        if not c.branch(I.d_contains(data, name), f"has-{name}"):
+            if fdecl.required:
+                hard_invalid = True
+            continue
+        raw = json_value(I, z3.Select(I.d_map(data), z3.StringVal(name)))
+        try:
+            if raw is None:
+                I.raise_("ValidationError")
+            result[name] = deserialize_json_field(lib, I, fdecl, schema_obj, raw, node)
+        except RaiseSig as r:
+            if r.exc.cls.name == "ValidationError":
+                hard_invalid = True
+                continue
+            raise
+    if hard_invalid or c.branch(invalid, "scalar-fields-or-unknown-keys-invalid"):
+        I.raise_("ValidationError", site=node)
+    out = result
+    for hook in schema_hooks(cls, "post_load"):
+        out = I.call(BoundMethod(hook, schema_obj), [out], {}, None, node)
+    return out
 
 
 def dump_object(lib, I, schema_obj, cls, obj, fields, node):
+    if tname(obj.typ) in ("Node", "Child"):
+        # the JSON-ready dict of a registry object, as an abstract value of the object's state (A-MM; refined by C13's field obligations)
+        return Sym(M.dumped_node(obj.ref), "json")
     return MISSING
